@@ -238,8 +238,8 @@ func (e *DNSEntry) decodeRRs(count int, p DNS, offset int, buffer []byte) (int, 
 		case 12: // PTR record
 			s := strings.TrimSuffix(string(name), ".in-addr.arpa")
 			tmp := net.ParseIP(s)
-			if tmp == nil {
-				return 0, false, fmt.Errorf("invalid PTR IP: %s", string(name))
+			if tmp == nil { // not an IPv4 reverse name (ip6.arpa, DNS-SD): ignore the record
+				break
 			}
 			if tmp = tmp.To4(); tmp == nil {
 				fmt.Printf("dns   : ignoring ptr ip6=%s\n", tmp)
